@@ -89,6 +89,36 @@ class LT:
         return [s.v for s in self.segs]
 
 
+def strip_empty(lt: LT) -> LT:
+    """drops guarded parts that hold nothing (a comprehension with a filter leaves `Guard(not c, [])` behind)"""
+    out: List[Any] = []
+    for s in lt.segs:
+        if isinstance(s, Guard):
+            inner = strip_empty(s.lt)
+            if inner.segs:
+                out.append(Guard(s.cond, inner))
+        else:
+            out.append(s)
+    return LT(out)
+
+
+def single_element(body: LT):
+    """(guard or None, element) when the body of a MapSeg holds at most one element per index, else None"""
+    b = strip_empty(body)
+    if len(b.segs) != 1:
+        return None
+    b0 = b.segs[0]
+    if isinstance(b0, Unit):
+        return None, b0.v
+    if isinstance(b0, Guard):
+        inner = single_element(b0.lt)
+        if inner is None:
+            return None
+        g, v = inner
+        return (b0.cond if g is None else z3.And(b0.cond, g)), v
+    return None
+
+
 def lt_length(lt: LT, abs_len: Callable[[Abs], z3.ArithRef]) -> z3.ArithRef:
     total: Any = z3.IntVal(0)
     for s in lt.segs:
@@ -199,6 +229,21 @@ def _subst_lt(lt: LT, ivar, term, subst) -> LT:
             out.append(MapSeg(s.ivar, z3.substitute(s.n, (ivar, term)), _subst_lt(s.body, ivar, term, subst), s.src))
         elif isinstance(s, Abs):
             out.append(Abs(s.sym, [subst(x, ivar, term) for x in s.args]))
+    return LT(out)
+
+
+def rename_binders(lt: LT, fresh: Callable[[], Any], subst) -> LT:
+    """alpha-renaming: every MapSeg gets a new bound index, so that a formula built from the list under a quantifier
+    over that index cannot capture an index that is free in the values it is compared with"""
+    out: List[Any] = []
+    for s in lt.segs:
+        if isinstance(s, Guard):
+            out.append(Guard(s.cond, rename_binders(s.lt, fresh, subst)))
+        elif isinstance(s, MapSeg):
+            nv = fresh()
+            out.append(MapSeg(nv, s.n, _subst_lt(rename_binders(s.body, fresh, subst), s.ivar, nv, subst), s.src))
+        else:
+            out.append(s)
     return LT(out)
 
 
